@@ -62,7 +62,18 @@ func ctxDriverExec(ctx context.Context, execerCtx driver.ExecerContext, execer d
 
 func CtxDriverQuery(ctx context.Context, queryerCtx driver.QueryerContext, queryer driver.Queryer, query string, nvdargs []driver.NamedValue) (driver.Rows, error) {
 	if queryerCtx != nil {
-		return queryerCtx.QueryContext(ctx, query, nvdargs)
+		rows, err := queryerCtx.QueryContext(ctx, query, nvdargs)
+		if err != driver.ErrSkip {
+			return rows, err
+		}
+		// the driver has no fast path for this query (go-sql-driver with arguments and without
+		// interpolateParams): prepare it, as database/sql does. ErrSkip must not reach database/sql
+		// from here, it would run the caller's business statement a second time.
+		ci, ok := queryerCtx.(driver.Conn)
+		if !ok {
+			return nil, errors.New("sql: the driver skipped the query and offers no prepared statements")
+		}
+		return ctxDriverPrepareQuery(ctx, ci, query, nvdargs)
 	}
 	dargs, err := namedValueToValue(nvdargs)
 	if err != nil {
@@ -75,6 +86,33 @@ func CtxDriverQuery(ctx context.Context, queryerCtx driver.QueryerContext, query
 		return nil, ctx.Err()
 	}
 	return queryer.Query(query, dargs)
+}
+
+// stmtRows closes the statement it came from together with the rows
+type stmtRows struct {
+	driver.Rows
+	si driver.Stmt
+}
+
+func (r *stmtRows) Close() error {
+	err := r.Rows.Close()
+	if cerr := r.si.Close(); err == nil {
+		err = cerr
+	}
+	return err
+}
+
+func ctxDriverPrepareQuery(ctx context.Context, ci driver.Conn, query string, nvdargs []driver.NamedValue) (driver.Rows, error) {
+	si, err := ctxDriverPrepare(ctx, ci, query)
+	if err != nil {
+		return nil, err
+	}
+	rows, err := ctxDriverStmtQuery(ctx, si, nvdargs)
+	if err != nil {
+		si.Close()
+		return nil, err
+	}
+	return &stmtRows{Rows: rows, si: si}, nil
 }
 
 func ctxDriverStmtExec(ctx context.Context, si driver.Stmt, nvdargs []driver.NamedValue) (driver.Result, error) {
